@@ -13,7 +13,7 @@ Ident == IF IdentVariant = 1 THEN [IdentMax EXCEPT !.mversion = MasterVersion]
          ELSE [Ident0 EXCEPT !.mversion = MasterVersion, !.lversion = LocalVersion, !.centre = Centre, !.subcentre = SubCentre]
 
 EmitEntry(e) ==
-    [lab |-> e.lab, t |-> e.t, w |-> e.w, sc |-> e.sc, link |-> e.link, d |-> e.d, p |-> e.p, mean |-> e.mean,
+    [lab |-> e.lab, t |-> e.t, w |-> e.w, sc |-> e.sc, ref |-> e.ref, link |-> e.link, d |-> e.d, p |-> e.p, mean |-> e.mean,
      v |-> [i \in 1..Len(e.v) |-> [miss |-> e.v[i].miss, raw |-> e.v[i].raw, N |-> NOf(e, i)]]]
 
 Behaviour ==
